@@ -1,5 +1,6 @@
 import CkbVerif.Driver.Util
 import CkbVerif.Model.Selector
+import CkbVerif.Model.Template
 
 /-! Line-protocol driver for C13 (protocol: harness/n13/src/c13.rs). -/
 namespace CkbVerif.Driver.C13
@@ -44,13 +45,23 @@ def step (s : DSt) (ts : List String) : DSt × String :=
       let r := txsToCommit s.view sl cl
       (s, s!"{showNatList (r.out.map (·.id))} size={r.size} cycles={r.cycles}")
     | _, _ => (s, "bad-op")
+  | ["tsize", mx, u, base, nu, np, ta, st, sp, su, tot] =>
+    -- the real assembler's TemplateSize next to the real sizes of its template: the clauses of
+    -- `Template.Inv` (the invariant of theorem `template_size_le_max`) evaluated on that state
+    match parseNats? [mx, u, base, nu, np, ta, st, sp, su, tot] with
+    | some [mx, u, base, nu, np, ta, st, sp, su, tot] =>
+      let t : CkbVerif.Template.TSt := ⟨mx, u, base, nu, np, ta, st, sp, su, tot⟩
+      let b (x : Bool) : String := if x then "1" else "0"
+      let parts := decide (t.sTxs = t.txsActual) && decide (t.sProposals = CkbVerif.Template.P * t.nProposals) && decide (t.sUncles = t.U * t.nUncles)
+      (s, s!"total={b (decide (t.sTotal = t.actual))} parts={b parts} le={b (decide (t.actual ≤ t.max))} inv={b (decide (CkbVerif.Template.Inv t))}")
+    | _ => (s, "bad-op")
   | ["select-stale", _, _] =>
     -- the dumped pool violates the theorems' hypotheses (see `hyp`): the implementation's result is
     -- HashSet-order dependent there; nothing to compare beyond the classification itself
     (s, "stale")
   | op :: _ =>
     -- scenario ops act on the real node only; their effect reaches the model through the dumps
-    if ["cfg", "submit", "wait", "template", "mine", "fork", "uncle"].contains op then (s, "ok") else (s, "bad-op")
+    if ["cfg", "submit", "wait", "template", "mine", "fork", "uncle", "make", "send", "propose"].contains op then (s, "ok") else (s, "bad-op")
   | _ => (s, "bad-op")
 
 def main (_args : List String) : IO UInt32 := runLines ({} : DSt) step
